@@ -97,18 +97,27 @@ def outcome_rules(run, F, E):
         from lint import symeval
         rec = F.rec_by_name.get(fn.cls) or {}
         n_states = rec.get('consts', {}).get('STATE_COUNT')
-        ev = symeval.Eval(F, {}, [])
-        ev.primitive = lambda g, obj, args: (g.tkey == 'ffsm2::detail::BitArrayT' and g.m == 'clear') or g.m == 'clearTasks'
+        from lint.symeval import Sym, ObjRef
+
+        def mk(asm):
+            ev = symeval.Eval(F, {'_bounds': ObjRef({'first': Sym('first'), 'last': Sym('last')}, [])}, [], asm)
+            ev.primitive = lambda g, obj, args: (g.tkey == 'ffsm2::detail::BitArrayT' and g.m == 'clear') or g.m == 'clearTasks'
+            return ev
         try:
-            sm = ev.run(fn, [])
+            paths = symeval.explore(mk, fn, [], limit=16)
         except symeval.Refuse as ex:
             raise AnalysisBroken('PlanT::clear is outside the offset-domain fragment: %s' % ex)
+        ok = n_states is not None
         cleared = {}
-        for name, obj, args in sm.events:
-            if name.endswith('BitArrayT::clear') and len(args) == 1:
-                cleared.setdefault(obj.split('.')[-1], set()).add(args[0])
-        tasks_cleared = any(name.endswith('clearTasks') for name, obj, args in sm.events)
-        ok = n_states is not None and tasks_cleared and cleared.get('tasksSuccesses') == set(range(n_states)) and cleared.get('tasksFailures') == set(range(n_states))
+        for dec, sm in paths:       # on every path, whatever the plan's bounds are
+            cleared = {}
+            for name, obj, args in sm.events:
+                if name.endswith('BitArrayT::clear') and len(args) == 1:
+                    cleared.setdefault(obj.split('.')[-1], set()).add(args[0])
+            tasks_cleared = any(name.endswith('clearTasks') for name, obj, args in sm.events)
+            if not (n_states is not None and tasks_cleared and cleared.get('tasksSuccesses') == set(range(n_states)) and cleared.get('tasksFailures') == set(range(n_states))):
+                ok = False
+                break
         run.ob('C09.a', 'PlanT::clear removes every task and clears both status bits of all %s states' % n_states, ok, where=fn.pat,
                detail=None if ok else {k: sorted(map(repr, v)) for k, v in cleared.items()}, key='PlanT::clear leaves tasks or status bits behind')
     for fn in F.find('PlanT', 'clearTasks'):
